@@ -239,8 +239,17 @@ func TestSim(t *testing.T) {
 			sum.Faults["context_cancelled"] += x.cancelFired
 			sum.Faults["predicate_false"] += x.predFalse
 			sum.Faults["predicate_panic"] += x.predPanic
+			if x.parent != nil {
+				if !x.started {
+					continue
+				}
+				sum.Faults["nested_directive_calls"]++
+				if _, _, _, inh := x.cancelView(); inh {
+					sum.Faults["nested_directive_context_ended_by_enclosing"]++
+				}
+			}
 			sum.Programs[x.prog.Name]++
-			if len(res.X) > 1 {
+			if len(d.Execs) > 1 {
 				sum.Faults["concurrent_callers_runs"]++
 			}
 		}
